@@ -46,6 +46,8 @@ def main():
         if isinstance(v, V.Function):
             return v.body.root_op().inner_signature() == t
         return False
+    from bounded.reuse import iterable_constructor_checks
+    ev += iterable_constructor_checks(fail, lambda m: json.loads(m.model_dump_json()))
     atoms = [V.TRUE, V.FALSE, V.Unit, V.UnitSum(2, 5), IntVal(3, 4), IntVal(0, 0), FloatVal(1.5), StringVal("s"), V.None_(T.Bool), V.None_()]
     f = Dfg(T.Bool)
     f.set_outputs(*f.inputs())
